@@ -15,6 +15,7 @@ package clirig
 import (
 	"fmt"
 	"net/url"
+	"runtime"
 	"sort"
 	"strconv"
 	"strings"
@@ -31,8 +32,9 @@ const Prop = "C15"
 type atomicParams struct {
 	from, to int
 	refresh  []string   // topics of the refresher's RefreshMetadata (empty = all)
-	readers  [][]string // per reader: the sequence of steps; a step is "Op:topic:part" or "burst:topic"
+	readers  [][]string // per reader ("/"-separated): the sequence of steps ("~"-separated); a step is "Op:topic:part" or "burst:topic"
 	rm       int
+	locks    bool // interleave at lock granularity: every acquisition of client.lock by a reader or the refresher is a gate
 }
 
 func parseAtomic(v url.Values) (*atomicParams, error) {
@@ -55,11 +57,12 @@ func parseAtomic(v url.Values) (*atomicParams, error) {
 			return nil, err
 		}
 	}
-	for _, r := range strings.Split(v.Get("readers"), ";") {
+	p.locks = v.Get("locks") == "1"
+	for _, r := range strings.Split(v.Get("readers"), "/") {
 		if r == "" {
 			continue
 		}
-		steps := strings.Split(r, "+")
+		steps := strings.Split(r, "~")
 		for _, st := range steps {
 			if strings.HasPrefix(st, "burst:") {
 				continue
@@ -95,6 +98,124 @@ func BurstCalls(topic string) []Call {
 	return append(l, Call{"Brokers", "", 0}, Call{"Controller", "", 0}, Call{"Topics", "", 0})
 }
 
+// lockCtl turns every acquisition of an RWMutex of package sarama (here: client.lock) by a
+// registered application goroutine into a GX gate "lockR(name,n)" / "lockW(name,n)" (n = ordinal of
+// the acquisition by that goroutine), through the shim hook verifsync.OnLock. No code of sarama
+// parks while holding client.lock (no nested acquisition), so a released goroutine runs its whole
+// critical section and parks again at its next acquisition or blocks on the network: one macro-step.
+//
+// It also tracks WHEN a served response is applied: the first write-lock acquisition of the
+// goroutine that received response k starts its application; the application is complete for sure
+// when that goroutine's API call has returned.
+type gstate struct {
+	name      string
+	nlocks    int
+	unapplied int   // index (1-based, served order) of a response delivered to this goroutine and not yet applied
+	applying  []int // applications started by this goroutine during its current call
+}
+
+type lockCtl struct {
+	mu      sync.Mutex
+	c       *gx.Ctl
+	byGoid  map[uint64]*gstate
+	byName  map[string]*gstate
+	current string
+	started []int // responses in the order their application started
+	done    map[int]bool
+}
+
+func goid() uint64 {
+	var b [64]byte
+	f := strings.Fields(string(b[:runtime.Stack(b[:], false)]))
+	n, _ := strconv.ParseUint(f[1], 10, 64)
+	return n
+}
+
+func newLockCtl(c *gx.Ctl) *lockCtl {
+	return &lockCtl{c: c, byGoid: map[uint64]*gstate{}, byName: map[string]*gstate{}, started: []int{1}, done: map[int]bool{1: true}}
+}
+
+// register must be called by the application goroutine itself.
+func (l *lockCtl) register(name string) {
+	if l == nil {
+		return
+	}
+	l.mu.Lock()
+	g := l.byName[name]
+	if g == nil {
+		g = &gstate{name: name}
+		l.byName[name] = g
+	}
+	l.byGoid[goid()] = g
+	l.current = name
+	l.mu.Unlock()
+}
+
+func (l *lockCtl) onLock(kind string) {
+	l.mu.Lock()
+	g := l.byGoid[goid()]
+	if g == nil {
+		l.mu.Unlock()
+		return // the controller itself (state dump) or a goroutine of sarama: not a decision point
+	}
+	g.nlocks++
+	n := g.nlocks
+	l.mu.Unlock()
+	l.c.Gate("lock"+kind, g.name, int32(n))
+	l.mu.Lock()
+	l.current = g.name
+	if kind == "W" && g.unapplied > 0 {
+		l.started = append(l.started, g.unapplied)
+		g.applying = append(g.applying, g.unapplied)
+		g.unapplied = 0
+	}
+	l.mu.Unlock()
+}
+
+func (l *lockCtl) owner() string {
+	l.mu.Lock()
+	defer l.mu.Unlock()
+	return l.current
+}
+
+func (l *lockCtl) setCurrent(name string) {
+	l.mu.Lock()
+	l.current = name
+	l.mu.Unlock()
+}
+
+// answered: response k (served order) was delivered to the goroutine named owner.
+func (l *lockCtl) answered(owner string, k int) {
+	l.mu.Lock()
+	if g := l.byName[owner]; g != nil {
+		g.unapplied = k
+	}
+	l.mu.Unlock()
+}
+
+// returned: the API call of the goroutine has returned; what it was applying is applied.
+func (l *lockCtl) returned(name string) {
+	l.mu.Lock()
+	if g := l.byName[name]; g != nil {
+		for _, k := range g.applying {
+			l.done[k] = true
+		}
+		g.applying = nil
+	}
+	l.mu.Unlock()
+}
+
+// bounds: (number of leading applications that are certainly complete, number of applications started).
+func (l *lockCtl) bounds() (int, int) {
+	l.mu.Lock()
+	defer l.mu.Unlock()
+	m := 0
+	for m < len(l.started) && l.done[l.started[m]] {
+		m++
+	}
+	return m, len(l.started)
+}
+
 type stepRec struct {
 	reader, idx int
 	step        string
@@ -116,6 +237,22 @@ func runAtomic(c *gx.Ctl, p *atomicParams) *gx.Outcome {
 		synctest.Wait()
 		return out
 	}
+	var lk *lockCtl
+	if p.locks {
+		lk = newLockCtl(c)
+		s.OwnerFn = lk.owner
+		sarama.VerifSetOnLock(lk.onLock)
+		defer sarama.VerifSetOnLock(nil) // process-global: never leave it installed
+		c.GateRank = func(string) int { return -1 } // default schedule: a running call runs to completion; deviations = preemptions at lock acquisitions
+	}
+	// counters that delimit what a read may have seen: [certainly applied at its start, possibly applied at its end]
+	bounds := func() (int, int) {
+		if lk != nil {
+			return lk.bounds()
+		}
+		n := s.Served()
+		return n, n
+	}
 	s.mu.Lock()
 	s.Manual = true
 	s.mu.Unlock()
@@ -130,9 +267,14 @@ func runAtomic(c *gx.Ctl, p *atomicParams) *gx.Outcome {
 		recs = append(recs, l)
 		ch := make(chan *stepRec)
 		work[k] = ch
+		name := fmt.Sprintf("r%d", k+1)
 		go func() {
+			lk.register(name)
 			for r := range ch {
-				n0 := s.Served()
+				if lk != nil {
+					lk.setCurrent(name)
+				}
+				n0, _ := bounds()
 				var calls []Call
 				if strings.HasPrefix(r.step, "burst:") {
 					calls = BurstCalls(strings.TrimPrefix(r.step, "burst:"))
@@ -143,13 +285,19 @@ func runAtomic(c *gx.Ctl, p *atomicParams) *gx.Outcome {
 				var obs []*Obs
 				for _, cl := range calls {
 					m0 := s.Served()
+					a0, _ := bounds()
 					o := Read(client, cl.Op, cl.Topic, cl.Part)
 					o.Resps = s.LogFrom(m0)
-					o.n0, o.n1 = m0, m0+len(o.Resps)
+					if lk != nil {
+						lk.returned(name)
+					}
+					_, a1 := bounds()
+					o.n0, o.n1 = a0, a1
 					obs = append(obs, o)
 				}
+				_, n1 := bounds()
 				mu.Lock()
-				r.n0, r.n1, r.obs, r.done = n0, s.Served(), obs, true
+				r.n0, r.n1, r.obs, r.done = n0, n1, obs, true
 				mu.Unlock()
 			}
 		}()
@@ -177,7 +325,11 @@ func runAtomic(c *gx.Ctl, p *atomicParams) *gx.Outcome {
 				refN0 = s.Served()
 				mu.Unlock()
 				go func() {
+					lk.register("ref")
 					err := client.RefreshMetadata(p.refresh...)
+					if lk != nil {
+						lk.returned("ref")
+					}
 					mu.Lock()
 					refreshErr, refreshDone, refN1 = err, true, s.Served()
 					mu.Unlock()
@@ -204,7 +356,12 @@ func runAtomic(c *gx.Ctl, p *atomicParams) *gx.Outcome {
 		}
 		for _, h := range s.Heads() {
 			h := h
-			acts = append(acts, gx.Actor{Label: "ans:" + h.Label, Rank: 3, Variants: []gx.Variant{{Name: "Metadata.ok", Do: func() { s.AnswerPending(h) }}}})
+			acts = append(acts, gx.Actor{Label: "ans:" + h.Label, Rank: 3, Variants: []gx.Variant{{Name: "Metadata.ok", Do: func() {
+				k := s.AnswerPending(h)
+				if lk != nil {
+					lk.answered(h.Owner, k)
+				}
+			}}}})
 		}
 		return acts
 	})
@@ -233,15 +390,24 @@ func runAtomic(c *gx.Ctl, p *atomicParams) *gx.Outcome {
 	// ---- judge
 	mu.Lock()
 	log := s.LogFrom(0)
+	order := make([]int, len(log)) // the order in which the responses were applied (1-based indexes into log)
+	for i := range order {
+		order[i] = i + 1
+	}
+	if lk != nil {
+		lk.mu.Lock()
+		order = append([]int(nil), lk.started...)
+		lk.mu.Unlock()
+	}
 	states := []*Ref{NewRef()}
-	for i := range log {
+	for _, k := range order {
 		n := states[len(states)-1].Clone()
-		n.Fold(&log[i])
+		n.Fold(&log[k-1])
 		states = append(states, n)
 	}
 	var obsLines []string
 	var detail strings.Builder
-	fmt.Fprintf(&detail, "served: %v\n", log)
+	fmt.Fprintf(&detail, "served: %v\napplied in the order %v\n", log, order)
 	if c.Stuck || !allDoneLocked(switched, refreshDone, recs) {
 		out.Violate(Prop, "atomic/call-never-returns", "a reader or the refresher did not return although every request was answered (stuck=%v); trace %v", c.Stuck, c.Trace())
 	}
@@ -288,10 +454,15 @@ func runAtomic(c *gx.Ctl, p *atomicParams) *gx.Outcome {
 						kind = "burst"
 					}
 					sig := fmt.Sprintf("atomic/%s:%s:neither-before-nor-after-the-refresh", kind, o.Op)
-					if o.n1 < prev {
-						sig = fmt.Sprintf("atomic/%s:%s:older-state-after-newer", kind, o.Op)
+					for j := o.n0; j <= o.n1 && j < len(states) && j < prev; j++ {
+						if states[j].Judge(o) == nil {
+							// explainable only by a state OLDER than the one this reader has already seen: a mixture across calls
+							sig = fmt.Sprintf("atomic/%s:%s:mixture-older-state-after-this-reader-saw-a-newer-one", kind, o.Op)
+							why = append(why, fmt.Sprintf("σ%d would explain it but this reader already saw σ%d", j, prev))
+							break
+						}
 					}
-					out.Violate(Prop, sig, "reader %d step %s: %s (responses %d..%d served during the call; the previous call of this reader was explained by σ%d) matches no admissible reference state: %s", k+1, r.step, o.String(), o.n0, o.n1, prev, strings.Join(why, " || "))
+					out.Violate(Prop, sig, "reader %d step %s: %s (admissible reference states σ%d..σ%d = responses certainly applied when the call began .. responses whose application had begun when it returned; the previous call of this reader was explained by σ%d) matches none of them: %s", k+1, r.step, o.String(), o.n0, o.n1, prev, strings.Join(why, " || "))
 					continue
 				}
 				prev = found
@@ -304,7 +475,7 @@ func runAtomic(c *gx.Ctl, p *atomicParams) *gx.Outcome {
 					out.Stat("read-saw-later-state")
 				}
 			}
-			fmt.Fprintf(&detail, "reader %d step %d %s during responses (%d,%d] explained by σ%v: %s\n", k+1, r.idx+1, r.step, r.n0, r.n1, js, strings.Join(os, "; "))
+			fmt.Fprintf(&detail, "reader %d step %d %s admissible σ%d..σ%d, explained by σ%v: %s\n", k+1, r.idx+1, r.step, r.n0, r.n1, js, strings.Join(os, "; "))
 			obsLines = append(obsLines, fmt.Sprintf("r%d#%d[%d,%d]σ%v:%s", k+1, r.idx+1, r.n0, r.n1, js, strings.Join(os, ";")))
 		}
 	}
